@@ -26,24 +26,41 @@ Readings (where the property text leaves room):
   bracket groups, one standard navigation form, its marks outside the repeated sections; NOT when the jump instruction ends
   a repeated section and leaps are ignored (twice or once on the way through after the jump?), nor where the code's
   recognition of a leap by segment types is known to be fooled (see PARTIAL).
+* "ids suffixed with the visit number on request" (round 5): with update_ids every Note (GraceNotes included; rests and unpitched
+  notes are not listed by `part.notes` and keep their ids) whose id is not None carries `<original id>-<k>`, k = 1 + the number of earlier
+  visits of its segment in the path - WHATEVER the original id looks like ('m3-2', 'a' / 'a-1' / 'a-1-1', '7', '-5', 'x--2' ...); a note
+  without an id keeps None.  The clause is judged by the oracle for unique original ids; duplicate ids in the original are invalid input
+  (the code numbers all notes that share an id together, in the order of `part.notes`; modelled, compared and proved to give pairwise
+  different ids - `suffixed_ids_distinct` - but not judged).  "on request": the signature default of update_ids is True (the docstrings
+  say False); the oracle never judges a call that omits update_ids.
+* Fermata.ref / Note.fermata / Note.beam / Beam.notes are not among "(ties, slurs, tuplets, grace chains, neighbouring time points)", the
+  explicit list of the property, and are not remapped by the code (a copy keeps pointing at the original's fermata / beam): not judged.
 * segment ids: the property does not speak about them; that they are `chr(65 + i)` is compared with the model (`ids`,
   `segstr`), because three places of the code order segments by the string order of their ids (Props/C09Many).
 """
 import copy as _copy
 import json
 import os
-import signal
 import sys
 from collections import Counter, defaultdict
 
 import wire as W
 from core import Eval
+from cpulimit import run_limited, CpuTimeout
 
 import gen_score as G
 
+# every heavy import happens here, before any CPU limit is armed (a limit that fires inside an import leaves half-initialised
+# modules behind)
+import numpy  # noqa: F401,E402
+import partitura  # noqa: F401,E402
+import partitura.score  # noqa: F401,E402
+import partitura.utils.music  # noqa: F401,E402
+import partitura.utils.generic  # noqa: F401,E402
+
 PROPERTY = "C09"
 DRIVER = "drv_c09"
-PROPS = ["PartituraModel.Props.C09", "PartituraModel.Props.C09Ext", "PartituraModel.Props.C09Many"]
+PROPS = ["PartituraModel.Props.C09", "PartituraModel.Props.C09Ext", "PartituraModel.Props.C09Many", "PartituraModel.Props.C09Entry"]
 TRUSTED = [
     "Python dict insertion order; str comparison = lexicographic on code points, `in` = substring, list.sort stable, "
     "list(set(x)).sort() = the sorted distinct elements (Model/UnfoldIds.lean: pyLt, pyContains, insStr, insStrStable); that the "
@@ -56,6 +73,14 @@ TRUSTED = [
     "was found in the maximal / minimal enumeration: 0.2 s for 200 doubled segments); the model enumerates with fuel 1000 and the "
     "generator keeps the longest path below 800 visits",
     "the abstract part sent to the model is read from the real objects by this module (kind by isinstance, start/end, referential attributes)",
+    "the entry-point model (Model/UnfoldEntry.lean) takes its defaults and the flags each entry point hands to get_paths / new_part_from_path "
+    "from Gen/C09Lits.lean, which harness/translate_c09.py regenerates on every run by CALLING the live functions (recording wrappers "
+    "around get_paths / new_part_from_path on a one-repeat probe part, inspect.signature, probes of create_variant_part with one "
+    "instance of 21 classes, update_note_ids_after_unfolding on 12 id shapes, add_segments for the id base): that the probes are "
+    "representative is trusted, the `entry …` streams compare the result on every generated case",
+    "deepcopy of a Score (the Score branch of unfold_part_maximal / minimal) is modelled as the identity on the abstract parts",
+    "`notes_tied` reads the first referential attribute of a note as tie_prev (the order of GenericNote._ref_attrs, read live by this "
+    "module); np.mean / == / argmin in unfold_part_alignment are modelled as count, equality, first minimum (alignPick)",
     "that a real part is an instance of a layout family of the theorems (chainLayout, mvLayout, dcFineLayout, dcCodaLayout, dsCodaLayout) is "
     "decided twice, by the model (`fam` request: equality with the family's layout plus every hypothesis of the layout theorem) and by "
     "family_of() in this module from the musical description; the two answers are compared on every case, not proved equal",
@@ -71,7 +96,16 @@ PARTIAL = [
     "add_segments builds for ANY set of repeats (repeats_terminate) - in all three modes with fuel 2^(n+1), and for the volta and navigation "
     "families in maximal/minimal mode with explicit fuel; not proved for arbitrary tables: enumeration_may_not_terminate exhibits a table "
     "(built by the unrepaired code for a da capo in the middle of a part) on which the minimal enumeration fails for every fuel",
-    "ids_suffixed needs unique note ids in the original part (with duplicate ids the code ranks all same-id notes together; compared only)",
+    "ids: ids_are_visit_numbers (suffix = visit number, end to end from add_segments, no hypothesis on offsets / lengths / disjointness) needs "
+    "unique note ids in the original part; with duplicate ids the code ranks all same-id notes together in the order of part.notes "
+    "(noteBefore: onset, Note before GraceNote, registration) - modelled, compared on every `dup` case, proved to give pairwise different "
+    "ids for ANY list of copies (suffixed_ids_distinct, ids_rank_order), not related to visit numbers (it is not one)",
+    "entry points: unfold_part_maximal_sound / ids_are_visit_numbers / unfolding_never_misses_a_segment / maximal_minimal_single_path are "
+    "end-to-end and unconditional; totality of all entry points is proved for repeat-only parts (entry_points_total_on_repeats) and for "
+    "parts without structure (unfold_without_structure), elsewhere it follows from a successful get_paths only; "
+    "the shape of the maximal / minimal path is proved through the entry points only for r disjoint simple repeats "
+    "(unfold_part_maximal_simple_repeats, iter_unfolded_parts_count); for the volta and navigation families it is proved for get_paths "
+    "(Props/C09Ext) and composes with unfold_part_maximal_is by hand; unfold_part_alignment's choice (alignPick) is compared only",
     "length_sum assumes a part well formed for its segmentation (no copied object reaches beyond its segment, something ends at the end of the "
     "last visited segment); otherwise the code keeps the overhanging end and the model mirrors it",
     "signatures and clefs are outside copies_per_visit (copied only when different from the previous one; mirrored by sigSkip and compared)",
@@ -80,7 +114,9 @@ PARTIAL = [
     "checked by the independent oracle for these and for D.C., D.S., D.S. al Fine, D.C./D.S. before the end of the part; other arrangements of "
     "marks (several jumps, marks inside repeats) are compared only; `'END' <= chr(65+i)` makes END count as a jump to the past for segments "
     "F and later (mirrored by Dest.lePast); the first segment is a leap destination only when the part starts at time 0 (`ss == 0`)",
-    "Fermata.ref / Note.fermata / Beam references are not in the property's list of references and are not remapped by the code",
+    "Fermata.ref / Note.fermata / Note.beam / Beam.notes are not in the property's list of references and are not remapped by the code "
+    "(after unfolding a MusicXML part a copied note still points at the ORIGINAL's Fermata / Beam object and vice versa; a reader of the "
+    "property that takes its list as examples would call this a defect - see the readings at the top)",
     "repeats combined with a navigation form (clause blocks-navigation) are judged by the oracle only for disjoint blocks with the marks "
     "outside them; excluded (compared with the model only): (a) ignore_leaps=True with the D.C./D.S. at the end of a repeated section "
     "- the code plays that section once on the way through after the jump, the notation does not say; (b) a D.C./D.S. that ends the "
@@ -102,7 +138,10 @@ RULE = ("parts from gen_score.random_part_desc (3-10 bars, ties over barlines, s
         "one standard navigation form with its marks at block edges, optionally an outer repeat around several blocks - 2-14 segments, "
         "and 8 (quick) / 120 (thorough) parts with MANY segments: 27-60, every sixth 61-150 (ids beyond 'Z', longest path kept below "
         "800 visits); 15-25 % of the parts are built with read-only views interleaved (gen_score `warm`) and 12-15 % with an edit "
-        "history (a mark removed, the part unfolded, the mark put back: `hist`); plus the six unfold fixtures of tests/data/musicxml "
+        "history (a mark removed, the part unfolded, the mark put back: `hist`); 30 % of the parts get an ID SHAPE (round 5): ids 'm<bar>-<k>', chains a / a-1 / a-1-1, "
+        "numbers, ids containing the separator, notes without id, duplicate ids; every policy carries an `omit` mask (the entry point is "
+        "called without update_ids and / or ignore_leaps); alignments with left-out, deleted and foreign ids; "
+        "plus the six unfold fixtures of tests/data/musicxml "
         "and corpus/C09.  distinct = distinct (segment table, policy flags); non-trivial = at least one repeat, ending or mark")
 LEVEL_TEXT = ("Lean theorems about the executable model of segment construction, path enumeration and segment copying: for every "
               "table - walks, length sum, copies per visit, nothing left, closed references, id suffix = visit number; at the layout "
@@ -111,7 +150,10 @@ LEVEL_TEXT = ("Lean theorems about the executable model of segment construction,
               "Fine / D.C. al Coda / D.S. al Coda; termination of the enumeration for every part whose only structure is repeats; "
               "for ANY number of segments the string operations of the code on segment ids chr(65+i) (sorts, comparisons, substring "
               "classification, cuts) are the numeric operations of the model (segment_table_is_string_algorithm), which ids counted "
-              "A..Z, AA, .. would break. "
+              "A..Z, AA, .. would break. Round 5: the public entry points (defaults, flags, Part and Score branch, first path) as a model whose "
+              "literals are regenerated from the live code; end-to-end theorems for a call of unfold_part_maximal and for the ids "
+              "(<id>-<visit number> for every shape of id; pairwise different ids even for duplicate originals) with no side condition; "
+              "every segment table tiles the timeline (positive, contiguous, disjoint). "
               "Tied to partitura by running the model and the real unfold functions on the same generated parts and comparing segment "
               "tables (as numbers and as id strings), ids, family membership, path lists and every copied object; an independent oracle "
               "re-checks the property clauses (incl. the playing order, computed from the notation alone in units of time, of parts "
@@ -138,6 +180,74 @@ def _volta_numbers(rng, k):
         c = 1 if rng.random() < 0.7 else 2
         out.append(",".join(str(x) for x in range(n, n + c)))
         n += c
+    return out
+
+
+ID_SHAPES = ("mnum", "chain", "numeric", "sep", "none", "dup")
+
+
+def id_map(rng, d, shape=None):
+    """round 5: the SHAPE of the original note ids (old id -> new id or None).  The ids gen_score makes are n<k>, g<k>, r<k>;
+    real files carry ids that end in -<number> ('m3-2', match-file 'n4-1'), that are prefixes / suffixed forms of one another
+    ('a', 'a-1', 'a-1-1'), that are plain numbers, that contain the separator, notes without an id, and (invalid, compared
+    only) the same id twice.  `update_ids=True` must give `<original id>-<visit number>` whatever the id looks like."""
+    shape = shape or rng.choice(ID_SHAPES)
+    notes = d["notes"]
+    bars = d.get("measures") if isinstance(d.get("measures"), list) else None
+    out, used = {}, set()
+
+    def fresh(make):
+        for _ in range(50):
+            x = make()
+            if x not in used:
+                used.add(x)
+                return x
+        x = "u%d" % len(used)
+        used.add(x)
+        return x
+    percount = Counter()
+    for k, n in enumerate(notes):
+        if shape == "mnum":
+            m = 0
+            if bars:
+                m = max([i for i, b in enumerate(bars) if b[0] <= n["t"]] or [0])
+            percount[m] += 1
+            new = "m%d-%d" % (m + 1, percount[m])
+        elif shape == "chain":
+            # a, a-1, a-1-1, a-2, a-1-2, b, b-1, ...: every id a prefix / a suffixed form of another one
+            def mk():
+                base = rng.choice("abc")
+                return base + "".join("-%d" % rng.randint(1, 3) for _ in range(rng.choice([0, 1, 1, 2, 3])))
+            new = fresh(mk)
+        elif shape == "numeric":
+            new = fresh(lambda: rng.choice(
+                [str(rng.randint(0, 60)), "%d-%d" % (rng.randint(0, 9), rng.randint(0, 12)), "-%d" % rng.randint(1, 30),
+                 "0%d" % rng.randint(0, 9)]))
+        elif shape == "sep":
+            new = fresh(lambda: rng.choice(["n-%d-x", "x--%d", "n-0%d", "n%d-", "n-%d", "P1-n%d", "note-000%d", "--%d", "n%d-0"])
+                        % rng.randint(1, 40))
+        elif shape == "none":
+            new = None if rng.random() < 0.4 else fresh(lambda: rng.choice(["n%d", "n%d-1", "None-%d"]) % rng.randint(1, 60))
+        else:  # dup: a few ids, several of them used more than once
+            new = rng.choice(["d1", "d1-1", "d2", "d2-2"]) if rng.random() < 0.4 else fresh(lambda: "n%d-%d" % (rng.randint(1, 30), rng.randint(1, 2)))
+        out[n["id"]] = new
+    return shape, out
+
+
+def with_ids(rng, out, p):
+    """with probability p give the case an id shape (and make sure update_ids=True is exercised on it); every policy gets
+    an `omit` mask: which keyword arguments the entry point is called WITHOUT (bit 0 update_ids, bit 1 ignore_leaps)"""
+    for pol in out["pols"]:
+        pol["omit"] = rng.choice([0, 0, 0, 1, 2, 3])
+    if rng.random() < p:
+        shape, mp = id_map(rng, out["part"])
+        out["idshape"] = shape
+        out["idmap"] = mp
+        if not any(pol["upd"] and pol["pol"] in ("max", "all") for pol in out["pols"]):
+            for pol in out["pols"]:
+                if pol["pol"] in ("max", "all"):
+                    pol["upd"] = True
+                    break
     return out
 
 
@@ -298,7 +408,7 @@ def gen_case(rng, big=False):
     out = {"k": "gen", "part": d, "pols": pols, "prereg": rng.random() < 0.15}
     if rng.random() < 0.12:
         out["hist"] = rng.randrange(0, 64)
-    return out
+    return with_ids(rng, out, 0.3)
 
 
 def shape_case(rng, kind):
@@ -385,7 +495,7 @@ def shape_case(rng, kind):
         pols.append({"pol": "max", "upd": False, "il": False, "pick": [0, 0]})
     if rng.random() < 0.15:
         d["warm"] = rng.choice([1, 2, 4, 8, 16, 31, 64, 95])
-    return {"k": "gen", "part": d, "pols": pols}
+    return with_ids(rng, {"k": "gen", "part": d, "pols": pols}, 0.3)
 
 
 def blocks_case(rng, lo, hi, light=True):
@@ -531,7 +641,7 @@ def blocks_case(rng, lo, hi, light=True):
            "visits": visits * (2 if nav else 1)}
     if rng.random() < 0.15:
         out["hist"] = rng.randrange(0, 64)
-    return out
+    return with_ids(rng, out, 0.3)
 
 
 def cases(rng, tier):
@@ -599,7 +709,7 @@ def build(desc):
             for f in (lambda: S.get_paths(p), lambda: S.get_paths(p, all_repeats=True, ignore_leap_info=False),
                       lambda: S.unfold_part_maximal(p), lambda: S.unfold_part_minimal(p)):
                 try:
-                    guarded(f, 5)
+                    guarded(f, 3)  # (warm-up readers only: cutting one short is no verdict, get_paths does not touch the part)
                 except _Timeout:
                     pass
             p.add(o, st, en)
@@ -613,6 +723,12 @@ def build(desc):
         else:
             o = S.Tuplet(na, nb, actual_notes=3, normal_notes=2)
         p.add(o, na.start.t, nb.end.t)
+    mp = desc.get("idmap")
+    if mp:
+        # round 5: the shape of the note ids (see id_map); the construction above refers to notes by the ids gen_score made
+        for n in list(p.iter_all(S.GenericNote, include_subclasses=True)):
+            if n.id in mp:
+                n.id = mp[n.id]
     return p
 
 
@@ -665,6 +781,24 @@ def kind_code(o):
     if isinstance(o, S.GenericNote):
         return 2
     return 0
+
+
+_NOTE_CLASSES = None
+
+
+def note_class_rank(o):
+    """position of the object's class in `[Note] + list(iter_subclasses(Note))`: the order in which `part.notes`
+    (= iter_all(Note, include_subclasses=True)) lists the objects that start at one time point; 0 for everything else"""
+    global _NOTE_CLASSES
+    if _NOTE_CLASSES is None:
+        import partitura.score as S
+        from partitura.utils.generic import iter_subclasses
+
+        _NOTE_CLASSES = [S.Note] + list(iter_subclasses(S.Note))
+    try:
+        return _NOTE_CLASSES.index(type(o))
+    except ValueError:
+        return 0
 
 
 def _code(x):
@@ -751,6 +885,7 @@ def part_tokens(part, objs):
         t.append(W.opt(W.i, None if o.end is None else o.end.t))
         t.append(W.lst(W.i, payload(o)))
         t.append(W.opt(W.s, getattr(o, "id", None) if kind_code(o) in (1, 2) else None))
+        t.append(str(note_class_rank(o)))
         rl = ref_lists(o)
         t.append(str(len(rl)))
         for a, was_list, tg in rl:
@@ -794,7 +929,7 @@ def canon_variant(u, orig_objs):
         oid = getattr(o, "id", None) if k in (1, 2) else None
         st = -1 if o.start is None else o.start.t  # (a copy detached from its time point: unrepaired code only)
         row = W.f_tuple(W.f_int(st), W.f_opt(W.f_int, None if o.end is None else o.end.t), str(k),
-                        str(-1 if vid is None else vid), "-" if oid is None else str(oid),
+                        str(-1 if vid is None else vid), "-" if oid is None else "=" + str(oid),
                         W.f_list(W.f_int, payload(o)), "[" + ",".join(refs) + "]")
         rows.append((st, -1 if vid is None else vid, row))
     rows.sort()
@@ -804,28 +939,18 @@ def canon_variant(u, orig_objs):
                      W.f_list(lambda q: W.f_tuple(W.f_int(q[0]), W.f_int(q[1])), qd), dur)
 
 
-class _Timeout(Exception):
-    pass
+_Timeout = CpuTimeout  # (a BaseException: `except Exception` in the code under test does not swallow it)
 
 
-def _alarm(signum, frame):
-    raise _Timeout()
-
-
-def guarded(f, seconds=6):
-    """(result, exception); _Timeout propagates"""
-    old = signal.signal(signal.SIGALRM, _alarm)
-    signal.alarm(seconds)
+def guarded(f, seconds=30):
+    """(result, exception) with a limit on the CPU time of this process (harness/cpulimit.py: a loaded machine is not a
+    timeout, an enumeration that does not terminate still is); _Timeout propagates"""
     try:
-        try:
-            return f(), None
-        except _Timeout:
-            raise
-        except Exception as e:
-            return None, e
-    finally:
-        signal.alarm(0)
-        signal.signal(signal.SIGALRM, old)
+        return run_limited(seconds, f), None
+    except _Timeout:
+        raise
+    except Exception as e:
+        return None, e
 
 
 FLAGS = {"max": lambda pol: (False, True, pol["il"]), "min": lambda pol: (True, False, True),
@@ -889,14 +1014,22 @@ def oracle_variant(tagname, part, orig_objs, orig_ids, u, segtab, path, upd):
     got = Counter()
     for n in u.iter_all(S.GenericNote, include_subclasses=True):
         nid = n.id
-        if upd and isinstance(n, S.Note) and nid is not None and idcount[nid.rsplit("-", 1)[0]] != 1:
-            nid = ("dup", nid.rsplit("-", 1)[0])
+        if upd and isinstance(n, S.Note) and nid is not None and idcount[nid.rsplit("-", 1)[0]] > 1:
+            nid = ("dup", nid.rsplit("-", 1)[0])  # (several originals share this id: invalid input, compared with the model only)
         got[(nid, type(n).__name__, n.start.t, None if n.end is None else n.end.t - n.start.t,
              getattr(n, "midi_pitch", None) if isinstance(n, S.Note) else None, n.voice, n.staff)] += 1
     if got != exp:
         miss = list((exp - got).items())[:3]
         extra = list((got - exp).items())[:3]
-        fails.append("copies: %s: notes of the unfolded part are not one shifted copy per visit; missing %r, unexpected %r" % (tagname, miss, extra))
+        strip = lambda c: Counter(k[1:] for k in c.elements())
+        if strip(got) == strip(exp):
+            # every note is where it belongs with pitch, duration, voice and staff: only the ids are wrong
+            fails.append("ids: %s: %s; expected %r, got %r" % (
+                tagname, "with update_ids every note must carry <original id>-<visit number> whatever the id looks like" if upd
+                else "without update_ids the copies keep the original ids", sorted((k[0] for k, _ in miss if not isinstance(k[0], tuple)), key=repr),
+                sorted((k[0] for k, _ in extra if not isinstance(k[0], tuple)), key=repr)))
+        else:
+            fails.append("copies: %s: notes of the unfolded part are not one shifted copy per visit; missing %r, unexpected %r" % (tagname, miss, extra))
     # -- the quarter duration in force at a copy's onset is the one in force at the original's onset
     try:
         qo, qu = part.quarter_duration_map, u.quarter_duration_map
@@ -1535,7 +1668,7 @@ def _evaluate(desc):
         if plist is not None and len(plist) > desc.get("mv", MAX_PATHS_VAR):
             continue
         try:
-            us, e = guarded(call, 20)
+            us, e = guarded(call, 60)
         except _Timeout:
             return Eval()
         if pol["pol"] in ("max", "min", "score"):
@@ -1543,6 +1676,12 @@ def _evaluate(desc):
         else:
             n = len(plist) if plist else 0
             picks = sorted(set(min(n - 1, int(x * n)) for x in pol["pick"])) if n else [0]
+        # ---- the entry points themselves (round 5): argument dispatch and defaults, against Model/UnfoldEntry.lean whose
+        #      flags and defaults are the ones harness/translate_c09.py reads off the live code (Gen/C09Lits.lean)
+        try:
+            entry_requests(ev, S, part, objs, ltok, ptok, pol, upd, il, us, e, picks, plist)
+        except _Timeout:
+            return Eval()
         if pol["pol"] == "score":
             # the Score variant works on a deep copy: compare with the direct call, check the argument
             if e is None:
@@ -1555,15 +1694,27 @@ def _evaluate(desc):
         if pol["pol"] == "align":
             if e is None and us and len(us) <= 64:
                 vi = picks[-1]
-                ids = [n.id for n in us[vi].notes_tied]
-                al = [{"label": "match", "score_id": i, "performance_id": "p%d" % k} for k, i in enumerate(ids)]
+                ids = [n.id for n in us[vi].notes_tied if n.id is not None]  # (a score id None is no valid alignment entry)
+                import random as _random
+                r_ = _random.Random(int(pol["pick"][0] * 1e9))
+                al = [{"label": "match", "score_id": i, "performance_id": "p%d" % k} for k, i in enumerate(ids) if r_.random() < 0.8]
                 al.append({"label": "insertion", "performance_id": "px"})
+                for u_ in us[:4]:  # notes the performance left out: ids of other variants, an id of no variant
+                    tid = [n.id for n in u_.notes_tied if n.id is not None]
+                    if tid and r_.random() < 0.5:
+                        al.append({"label": "deletion", "score_id": r_.choice(tid)})
+                if r_.random() < 0.3:
+                    al.append({"label": "deletion", "score_id": "zz-1"})
+                ids = [x["score_id"] for x in al if x["label"] in ("match", "deletion")]
                 cov = [sum(1 for i in ids if i in set(n.id for n in u.notes_tied)) for u in us]
                 best = max(cov)
                 cands = [k for k, c in enumerate(cov) if c == best]
                 ln = [len(us[k].notes_tied) for k in cands]
                 wantk = cands[ln.index(min(ln))]
-                r, e3 = guarded(lambda: S.unfold_part_alignment(part, _copy.deepcopy(al)), 40)
+                r, e3 = guarded(lambda: S.unfold_part_alignment(part, _copy.deepcopy(al)), 90)
+                sids = [x["score_id"] for x in al if x["label"] in ("match", "deletion")]
+                ev.requests.append("entry align %s %s %s" % (ltok, ptok, W.lst(W.s, sids)))
+                ev.impl.append("err" if e3 is not None else canon_variant(r, objs))
                 if e3 is not None:
                     ev.oracle.append("alignment: unfold_part_alignment raised %s: %s" % (type(e3).__name__, str(e3)[:80]))
                 elif canon_variant(r, objs) != canon_variant(us[wantk], objs):
@@ -1613,7 +1764,7 @@ def _evaluate(desc):
         # ---- second call gives the same
         if e is None and us is not None:
             try:
-                us2, e2 = guarded(call, 20)
+                us2, e2 = guarded(call, 60)
             except _Timeout:
                 return Eval()
             if e2 is not None or len(us2) != len(us) or any(canon_variant(us2[v], objs) != canon_variant(us[v], objs) for v in picks if v < len(us)):
@@ -1640,6 +1791,83 @@ def _evaluate(desc):
                "err": sum(1 for x in ev.impl if x == "err"), "simple": simple is not None, "volta": volta is not None,
                "nav": None if nav is None else nav[0], "fam": fam.split(" ")[0], "blocks": None if blk is None else blk[0]}
     return ev
+
+
+def entry_requests(ev, S, part, objs, ltok, ptok, pol, upd, il, us, e, picks, plist):
+    """`entry …` requests for one policy: the public functions called the way a user calls them (arguments given or
+    omitted: `omit` bit 0 = update_ids, bit 1 = ignore_leaps), compared with the entry-point model"""
+    def txt(r, err):
+        return "err" if err is not None or r is None else canon_variant(r, objs)
+    kind = pol["pol"]
+    omit = int(pol.get("omit", 0))
+    if kind == "max":
+        kw = {}
+        if not omit & 1:
+            kw["update_ids"] = upd
+        if not omit & 2:
+            kw["ignore_leaps"] = il
+        if omit:
+            r, err = guarded(lambda: S.unfold_part_maximal(part, **kw), 60)
+        else:
+            r, err = (us[0] if us else None), e
+        ev.requests.append("entry max %s %s %s %s" % (ltok, W.opt(W.b, kw.get("update_ids")), W.opt(W.b, kw.get("ignore_leaps")), ptok))
+        ev.impl.append(txt(r, err))
+        if omit == 2 and il and err is None and e is None and us:
+            # `ignore_leaps`: "Defaults to True" (docstring and signature agree; for update_ids they do not)
+            if canon_variant(r, objs) != canon_variant(us[0], objs):
+                ev.oracle.append("defaults: unfold_part_maximal(part, update_ids=%s) differs from unfold_part_maximal(part, update_ids=%s, "
+                                 "ignore_leaps=True) although ignore_leaps is documented to default to True" % (upd, upd))
+    elif kind == "min":
+        ev.requests.append("entry min %s %s" % (ltok, ptok))
+        ev.impl.append(txt(us[0] if us else None, e))
+    elif kind == "all":
+        if omit & 1:
+            rs, err = guarded(lambda: list(S.iter_unfolded_parts(part)), 60)
+        else:
+            rs, err = us, e
+        for vi in picks[:1]:
+            ev.requests.append("entry iter %s %s %d %s" % (ltok, "-" if omit & 1 else W.b(upd), vi, ptok))
+            if err is not None or rs is None or vi >= len(rs):
+                ev.impl.append("err")
+            else:
+                ev.impl.append(W.f_tuple(str(len(rs)), canon_variant(rs[vi], objs)))
+        # the ScoreVariant objects themselves: (start, end, offset) of every visit (`visitsOf` of the model)
+        svs, err3 = guarded(lambda: S.make_score_variants(part), 60)
+        for vi in picks[:1]:
+            ev.requests.append("entry visits %s %d" % (ltok, vi))
+            if err3 is not None or svs is None or vi >= len(svs):
+                ev.impl.append("err")
+            else:
+                ev.impl.append(W.f_tuple(str(len(svs)), W.f_list(lambda t: W.f_tuple(W.f_int(t[0]), W.f_int(t[1]), W.f_int(t[2])),
+                                                                   svs[vi].segment_times)))
+                if plist is not None and vi < len(plist):
+                    # independent of the model: offsets are the running sums of the visited segments' lengths
+                    off, ok = 0, True
+                    for (s_, e_, o_) in svs[vi].segment_times:
+                        ok = ok and o_ == off and s_ < e_
+                        off += e_ - s_
+                    if not ok or len(svs[vi].segment_times) != len(plist[vi]):
+                        ev.oracle.append("length: make_score_variants: the offsets of variant %d are not the running sums of its %d visited "
+                                         "segments' lengths: %r" % (vi, len(plist[vi]), svs[vi].segment_times[:6]))
+    elif kind == "score":
+        kw = {}
+        if not omit & 1:
+            kw["update_ids"] = upd
+        if not omit & 2:
+            kw["ignore_leaps"] = il
+        if omit:
+            r, err = guarded(lambda: S.unfold_part_maximal(S.Score([part], id="sc"), **kw).parts, 60)
+        else:
+            r, err = us, e
+        ev.requests.append("entry smax %s %s 1 %s %s" % (W.opt(W.b, kw.get("update_ids")), W.opt(W.b, kw.get("ignore_leaps")), ltok, ptok))
+        ev.impl.append("err" if err is not None or not r else "[" + canon_variant(r[0], objs) + "]")
+        r2, err2 = guarded(lambda: S.unfold_part_minimal(S.Score([part], id="sc")).parts, 60)
+        ev.requests.append("entry smin 1 %s %s" % (ltok, ptok))
+        ev.impl.append("err" if err2 is not None or not r2 else "[" + canon_variant(r2[0], objs) + "]")
+        if err2 is None and r2:
+            d2, e2 = guarded(lambda: S.unfold_part_minimal(part), 60)
+            if e2 is not None or canon_variant(d2, objs) != canon_variant(r2[0], objs):
+                ev.oracle.append("score: unfold_part_minimal(Score) gives a different part than unfold_part_minimal(part)")
 
 
 def finding_key(desc, failure):
@@ -1723,6 +1951,14 @@ def distribution(descs, results):
             c["warm_builds"] += 1
         if d.get("hist") is not None:
             c["edit_histories"] += 1
+        if d.get("idshape"):
+            c["id_shape_" + d["idshape"]] += 1
         if not r.get("requests"):
             c["skipped"] += 1
+        for q in r.get("requests") or []:
+            t = q.split(" ", 2)
+            c["obs_" + (t[0] + "_" + t[1] if t[0] == "entry" else t[0])] += 1
+        for pol in d.get("pols", []):
+            if pol.get("omit"):
+                c["entry_called_without_%s" % {1: "update_ids", 2: "ignore_leaps", 3: "both"}[pol["omit"]]] += 1
     return {"counts": dict(c), "segments_per_part": dict(sorted(nseg.items(), key=lambda kv: (isinstance(kv[0], str), str(kv[0]) if isinstance(kv[0], str) else kv[0])))}
